@@ -122,6 +122,15 @@ def run(ctx):
             continue
         c.ob("R3", ok, gp, f"fresh:{k}", why if ok else
              f"snapshot value for '{k}' ('{stmt_text(vexpr, 60)}') is a live reference: later execution of the interpreter changes a snapshot already taken", vexpr)
+    # ---- R6 persisted collections are complete (no filtering comprehension) ---------------------
+    for k in ("configuration", "history", "actors", "system"):
+        vexpr = written.get(k)
+        if vexpr is None:
+            continue
+        filt = [norm(cnd) for y in ast.walk(vexpr) if isinstance(y, (ast.ListComp, ast.GeneratorExp, ast.DictComp, ast.SetComp)) for g_ in y.generators for cnd in g_.ifs]
+        c.ob("R6", not filt, gp, f"complete:{k}", f"every element of the interpreter's {k} is persisted" if not filt else
+             f"snapshot value for '{k}' drops elements ({filt}): the restored interpreter has less {k} than the one that was snapshotted "
+             f"(e.g. shallow history restored from leaf-only records behaves like deep history)", vexpr)
     # ---- R4 shape guard on the decoded snapshot --------------------------------------------
     n_sub = 0
     for var in ("snapshot", "record"):
